@@ -186,6 +186,49 @@ func runRoot(g *Gen, fn *ssa.Function, c *Contract, u *Unit) {
 		g.assumeRaw(env.boolExpr(r.Expr))
 		g.trusted["assumed: "+relFuncName(fn)+": "+r.Src] = true
 	}
+	// uses L: the lemma L (proved as its own obligation of every property it is tagged with, or an axiom listed in the
+	// trusted base) is available in this function
+	for _, ln := range c.Uses {
+		// uses L(e1, e2): the lemma instantiated with these (entry-state) expressions for its outermost variables
+		var instArgs []*CNode
+		if i := strings.Index(ln, "("); i > 0 && strings.HasSuffix(ln, ")") {
+			n, err := parseCExpr(ln)
+			if err != nil || n.Kind != "call" {
+				cxFail("uses %s: cannot parse the instance", ln)
+			}
+			ln, instArgs = n.Name, n.Args
+		}
+		var lm *Lemma
+		for _, l := range g.cs.Lemmas {
+			if l.Name == ln {
+				lm = l
+			}
+		}
+		if lm == nil {
+			cxFail("uses %s: no such lemma", ln)
+		}
+		for _, p := range c.Props {
+			if !lm.Axiom && !contains(lm.Props, p) {
+				cxFail("uses %s: the lemma is not proved under property %s (tag it with the property)", ln, p)
+			}
+		}
+		lenv := env.sub()
+		if lp := g.ld.typesPkg(lm.Pkg); lp != nil {
+			lenv.pkg = lp
+		}
+		if instArgs != nil {
+			body := lm.Expr
+			if body.Kind != "quant" || body.Op != "forall" || len(body.Vars) != len(instArgs) {
+				cxFail("uses %s: the lemma has not %d outermost variables", ln, len(instArgs))
+			}
+			for i, vn := range body.Vars {
+				lenv.bound[vn] = env.expr(instArgs[i])
+			}
+			g.assumeRaw(lenv.boolExpr(body.Args[0]))
+			continue
+		}
+		g.assumeRaw(lenv.boolExpr(lm.Expr))
+	}
 	// cover: precondition satisfiable (must be sat)
 	g.seq++
 	g.covers = append(g.covers, &Oblig{Name: relFuncName(fn) + "#cover(pre)", Kind: "cover", seq: g.seq, reach: "true", goal: "false", blk: -1})
